@@ -24,10 +24,10 @@ pgvars == <<doc, cur, path, budget>>
 S == Universe
 R0 == Roots("full")
 
-FragOnTypes == {"Person", "Robot", "Cat", "Node", "Named", "Pet", "Any"}
 FragNames == <<"FragA", "FragB", "FragC">>
 OpKinds == {"query", "mutation", "subscription"}
 Aliases == {"", "al"}
+AliasedFields == {"name", "id", "best", "pet", "node", "me", "nodes", "changed", "rename", "tags"}
 
 Done == cur > Len(doc.defs)
 
@@ -58,12 +58,10 @@ Push(node) == doc' = [doc EXCEPT !.nodes = Append(@, node)]
 
 SubPath(j) == SubSeq(path, 1, j)
 
+\* The document starts as one operation; fragments are declared by the first spread that names
+\* them (so every fragment is used) and their bodies are built after the operation's.
 Init ==
-  /\ \E kind \in OpKinds, nf \in 0..MaxFrags, opFirst \in BOOLEAN :
-       \E ons \in [1..nf -> FragOnTypes] :
-          LET frags == [i \in 1..nf |-> FragDef(FragNames[i], ons[i])]
-              op == <<OpDef(kind, "MyOp")>>
-          IN  doc = [defs |-> IF opFirst THEN op \o frags ELSE frags \o op, nodes |-> <<>>]
+  /\ \E kind \in OpKinds : doc = [defs |-> <<OpDef(kind, "MyOp")>>, nodes |-> <<>>]
   /\ cur = 1
   /\ path = <<>>
   /\ budget \in 1..MaxNodes
@@ -80,13 +78,14 @@ AddField ==
           /\ (cur # 0 /\ ~(doc.defs[cur].k = "op" /\ doc.defs[cur].kind = "subscription" /\ j = 0
                            /\ ChildSet(doc, cur, 0) # {}))        \* one root field in subscriptions
           /\ \E f \in Pool(t), al \in Aliases :
-               LET key == IF al # "" THEN al ELSE f
-                   fd == FieldOf(S, t, f)
-                   leaf == IsLeaf(S, fd.base)
-               IN  /\ key \notin KeysAt(j)
-                   /\ (Free \/ (leaf /\ j = Len(path) /\ ~SetComplete(cur, LevelNode(j), t)))
-                   /\ Push(FieldNode(cur, LevelNode(j), f, al))
-                   /\ path' = IF leaf THEN SubPath(j) ELSE Append(SubPath(j), Len(doc.nodes) + 1)
+               /\ (al # "" => f \in AliasedFields)
+               /\ LET key == IF al # "" THEN al ELSE f
+                      fd == FieldOf(S, t, f)
+                      leaf == IsLeaf(S, fd.base)
+                  IN  /\ key \notin KeysAt(j)
+                      /\ (Free \/ (leaf /\ j = Len(path) /\ ~SetComplete(cur, LevelNode(j), t)))
+                      /\ Push(FieldNode(cur, LevelNode(j), f, al))
+                      /\ path' = IF leaf THEN SubPath(j) ELSE Append(SubPath(j), Len(doc.nodes) + 1)
   /\ UNCHANGED <<cur, budget>>
 
 AddTypename ==
@@ -112,22 +111,30 @@ AddInline ==
             /\ path' = Append(SubPath(j), Len(doc.nodes) + 1)
   /\ UNCHANGED <<cur, budget>>
 
-\* spread of a declared fragment on the scope type itself or on a member of an abstract scope
+\* spread of a fragment on the scope type itself or on a member of an abstract scope; the
+\* fragment is either already declared or declared by this spread
+SpreadTargets(t) == {t} \cup (IF IsAbstract(S, t) THEN PossibleTypes(S, t) ELSE {})
+
+NFrags == Len(doc.defs) - 1
+
 AddSpread ==
   /\ ~Done /\ Free
-  /\ \E j \in 0..Len(path), f \in 1..Len(doc.defs) :
+  /\ \E j \in 0..Len(path) :
        /\ Closable(j)
-       /\ doc.defs[f].k = "frag"
-       /\ LET t == LevelType(j) IN
-            \/ doc.defs[f].on = t
-            \/ (IsAbstract(S, t) /\ KindOf(S, doc.defs[f].on) = "OBJECT"
-                /\ doc.defs[f].on \in PossibleTypes(S, t))
-       \* no spread cycle that does not cross a field: inside a fragment, before any field is
-       \* crossed, only later-defined fragments may be spread
-       /\ (doc.defs[cur].k = "frag" /\ ~Crossed(j)) => f > cur
-       /\ ~\E i \in ChildSet(doc, cur, LevelNode(j)) :
-              doc.nodes[i].k = "spread" /\ doc.nodes[i].name = doc.defs[f].name
-       /\ Push(SpreadNode(cur, LevelNode(j), doc.defs[f].name))
+       /\ IsComposite(S, LevelType(j))
+       /\ ~(doc.defs[cur].k = "op" /\ doc.defs[cur].kind = "subscription" /\ j = 0)
+       /\ \/ \E f \in 2..Len(doc.defs) :
+               /\ doc.defs[f].on \in SpreadTargets(LevelType(j))
+               \* no spread cycle that does not cross a field: before any field is crossed a
+               \* fragment body may only spread later-declared fragments
+               /\ (doc.defs[cur].k = "frag" /\ ~Crossed(j)) => f > cur
+               /\ ~\E i \in ChildSet(doc, cur, LevelNode(j)) :
+                      doc.nodes[i].k = "spread" /\ doc.nodes[i].name = doc.defs[f].name
+               /\ doc' = [doc EXCEPT !.nodes = Append(@, SpreadNode(cur, LevelNode(j), doc.defs[f].name))]
+          \/ /\ NFrags < MaxFrags
+             /\ \E on \in SpreadTargets(LevelType(j)) :
+                  doc' = [defs |-> Append(doc.defs, FragDef(FragNames[NFrags + 1], on)),
+                          nodes |-> Append(doc.nodes, SpreadNode(cur, LevelNode(j), FragNames[NFrags + 1]))]
        /\ path' = SubPath(j)
   /\ UNCHANGED <<cur, budget>>
 
